@@ -2,6 +2,8 @@ package main
 
 import (
 	"fmt"
+	"os"
+	"path/filepath"
 	"sort"
 	"strings"
 
@@ -573,6 +575,174 @@ func runC16(ctx *Ctx) error {
 		for _, cfg := range []fcfg{{It: []string{}, Et: []string{"b"}, Ii: []string{}, Ei: []string{}}, {It: []string{}, Et: []string{}, Ii: []string{"OpA"}, Ei: []string{}}} {
 			if err := c16Generate(ctx, ops, []string{"S0", "S1", "S2", "S3"}, cfg, fw); err != nil {
 				return err
+			}
+		}
+	}
+	if err := c16SecondFilter(ctx); err != nil {
+		return err
+	}
+	return c16CLI(ctx)
+}
+
+// c16SecondFilter: one loaded document generated twice with filters that keep different operations (Generate edits the
+// document it is given, so which operations the second call still sees is the caller's business) — whatever the second call
+// keeps, everything its output refers to is declared and its embedded specification has no dangling reference.
+func c16SecondFilter(ctx *Ctx) error {
+	comp := func(n string) J {
+		return J{"type": "object", "properties": J{"name": J{"type": "string"}, "n" + n: J{"type": "integer"}}}
+	}
+	opOf := func(id, tag, schema, param string) J {
+		return J{"operationId": id, "tags": []interface{}{tag}, "parameters": []interface{}{J{"$ref": "#/components/parameters/" + param}},
+			"responses": J{"200": J{"description": "d", "content": J{"application/json": J{"schema": J{"$ref": "#/components/schemas/" + schema}}}}}}
+	}
+	doc := J{"openapi": "3.0.3", "info": J{"title": "t", "version": "1"},
+		"paths": J{"/cats": J{"get": opOf("FindCat", "cat", "Cat", "Fur")}, "/dogs": J{"get": opOf("FindDog", "dog", "Dog", "Breed")}},
+		"components": J{"schemas": J{"Cat": comp("cat"), "Dog": comp("dog")},
+			"parameters": J{"Fur": J{"name": "fur", "in": "query", "schema": J{"type": "string", "enum": []interface{}{"long", "short"}}},
+				"Breed": J{"name": "breed", "in": "query", "schema": J{"type": "string", "enum": []interface{}{"big", "small"}}}}}}
+	for _, fw := range []string{"chi", "echo", "gin"} {
+		for _, seq := range [][2]fcfg{{{It: []string{"cat"}}, {It: []string{"dog"}}}, {{Et: []string{"dog"}}, {Et: []string{"cat"}}}, {{Ii: []string{"FindCat"}}, {Ii: []string{"FindDog"}}}} {
+			spec, err := loadDoc(doc)
+			if err != nil {
+				return err
+			}
+			mk := func(c fcfg) codegen.Configuration {
+				o := c.config()
+				o.PackageName = "api"
+				o.Generate.Models, o.Generate.Client, o.Generate.EmbeddedSpec = true, true, true
+				setFramework(&o, fw)
+				return o
+			}
+			_, _ = generate(spec, mk(seq[0]))
+			src, err := generate(spec, mk(seq[1]))
+			ctx.Res.Eval(J{"second-filter": seq, "fw": fw}, true)
+			ctx.Res.Count("generate:second-filter-on-the-same-document")
+			replay := J{"doc": doc, "first": seq[0], "second": seq[1], "fw": fw}
+			if err != nil {
+				continue // refusing is an answer
+			}
+			got, ierr := c11Inspect(src)
+			if ierr != nil {
+				ctx.Res.Violate("second-filter:unparsable:"+fw, "the second output does not parse: "+ierr.Error(), replay)
+				continue
+			}
+			// package names of imports the checker could not resolve are lower-case; what the file declares is exported
+			var undeclared []string
+			for _, u := range got.Undefined {
+				if u != "" && u[0] >= 'A' && u[0] <= 'Z' {
+					undeclared = append(undeclared, u)
+				}
+			}
+			got.Undefined = undeclared
+			if len(got.Undefined) > 0 {
+				ctx.Res.Violate("second-filter:undeclared-type:"+fw, fmt.Sprintf("after a generation with %v, a generation of the same loaded document with %v refers to %v, which it does not declare", Canon(seq[0]), Canon(seq[1]), got.Undefined), replay)
+			}
+			if f, _, perr := parseGo(src); perr == nil {
+				if raw, derr := decodeEmbedded(f); derr == nil {
+					if _, lerr := openapi3.NewLoader().LoadFromData(raw); lerr != nil {
+						ctx.Res.Violate("second-filter:embedded-unloadable:"+fw, "the specification embedded by the second generation does not load: "+firstLine(lerr.Error()), replay)
+					}
+				}
+			}
+		}
+	}
+	return nil
+}
+
+// c16CLI: the filters as a user gives them to the command-line tool — legacy flags (comma-separated lists), an old-style
+// file and a new-style file — on tags with blanks, hyphens and other letter cases; the interface of the generated server
+// has exactly the operations the filter prescribes (tags compared as whole strings).
+func c16CLI(ctx *Ctx) error {
+	bin, err := c20Build(ctx)
+	if err != nil {
+		return nil // C20's business
+	}
+	d := filepath.Join(ctx.Work, "c16cli")
+	_ = os.MkdirAll(d, 0o755)
+	type op struct {
+		id   string
+		tags []string
+	}
+	ops := []op{{"ListPets", []string{"pet store"}}, {"GetPet", []string{"pet"}}, {"GetStore", []string{"store"}}, {"GetAdmin", []string{"admin-area", "Pet"}}, {"Ping", nil}}
+	paths := J{}
+	for i, o := range ops {
+		oj := J{"operationId": o.id, "responses": J{"204": J{"description": "d"}}}
+		if o.tags != nil {
+			var ts []interface{}
+			for _, t := range o.tags {
+				ts = append(ts, t)
+			}
+			oj["tags"] = ts
+		}
+		paths[fmt.Sprintf("/p%d", i)] = J{"get": oj}
+	}
+	doc := J{"openapi": "3.0.3", "info": J{"title": "t", "version": "1"}, "paths": paths}
+	_ = os.WriteFile(filepath.Join(d, "spec.json"), []byte(Canon(doc)), 0o644)
+	kept := func(inc, exc []string) []string {
+		var out []string
+		for _, o := range ops {
+			has := func(list []string) bool {
+				for _, t := range o.tags {
+					for _, l := range list {
+						if t == l {
+							return true
+						}
+					}
+				}
+				return false
+			}
+			if has(exc) || (len(inc) > 0 && !has(inc)) {
+				continue
+			}
+			out = append(out, o.id)
+		}
+		sort.Strings(out)
+		return out
+	}
+	yamlList := func(l []string) string {
+		var b strings.Builder
+		for _, x := range l {
+			fmt.Fprintf(&b, "\n    - %q", x)
+		}
+		return b.String()
+	}
+	for _, c := range []struct{ inc, exc []string }{{[]string{"pet store"}, nil}, {nil, []string{"pet store"}}, {[]string{"pet", "admin-area"}, nil}, {[]string{"pet store", "store"}, []string{"Pet"}}, {nil, []string{"pet"}}} {
+		want := kept(c.inc, c.exc)
+		newYaml := "package: api\ngenerate:\n  chi-server: true\n  models: true\noutput-options:"
+		oldYaml := "package: api\ngenerate:\n  - chi-server\n  - types"
+		flags := []string{"-package", "api", "-generate", "chi-server,types"}
+		if c.inc != nil {
+			newYaml += "\n  include-tags:" + yamlList(c.inc)
+			oldYaml += "\ninclude-tags:" + strings.ReplaceAll(yamlList(c.inc), "    -", "  -")
+			flags = append(flags, "-include-tags", strings.Join(c.inc, ","))
+		}
+		if c.exc != nil {
+			newYaml += "\n  exclude-tags:" + yamlList(c.exc)
+			oldYaml += "\nexclude-tags:" + strings.ReplaceAll(yamlList(c.exc), "    -", "  -")
+			flags = append(flags, "-exclude-tags", strings.Join(c.exc, ","))
+		}
+		_ = os.WriteFile(filepath.Join(d, "new.yaml"), []byte(newYaml+"\n"), 0o644)
+		_ = os.WriteFile(filepath.Join(d, "old.yaml"), []byte(oldYaml+"\n"), 0o644)
+		for _, v := range []struct {
+			name string
+			args []string
+		}{{"legacy-flags", append(append([]string{}, flags...), "spec.json")}, {"new-style-file", []string{"-config", "new.yaml", "spec.json"}}, {"old-style-file", []string{"-old-config-style", "-config", "old.yaml", "spec.json"}}} {
+			run := c20Exec(bin, d, v.args...)
+			ctx.Res.Eval(J{"cli-tag-filter": v.name, "include": c.inc, "exclude": c.exc}, true)
+			ctx.Res.Count("cli:" + v.name)
+			if run.Exit != 0 {
+				ctx.Res.Violate("cli:tag-filter:refused:"+v.name, fmt.Sprintf("tool %v exits with %d: %s", v.args, run.Exit, firstLine(run.Stderr)), J{"doc": doc, "args": v.args})
+				continue
+			}
+			f, _, perr := parseGo(run.Stdout)
+			if perr != nil {
+				ctx.Res.Violate("cli:tag-filter:unparsable:"+v.name, "the tool's output does not parse: "+perr.Error(), J{"doc": doc, "args": v.args})
+				continue
+			}
+			got, _ := interfaceMethods(f, "ServerInterface")
+			sort.Strings(got)
+			if fmt.Sprint(got) != fmt.Sprint(want) {
+				ctx.Res.Violate("cli:tag-filter:"+v.name, fmt.Sprintf("tool %v: the server interface has %v, the filter (include %q, exclude %q) prescribes %v", v.args, got, c.inc, c.exc, want), J{"doc": doc, "args": v.args})
 			}
 		}
 	}
